@@ -360,7 +360,10 @@ def compare_decompile(obs, trace, line):
     st, rsegs, rranges = real_decompile_line(obs, trace)
     parts = line.split(" | ")
     mst = "raise" if parts[0].startswith("raise:") else parts[0]
-    if "Unmodelled" in parts[0]:
+    if "Unmodelled" in parts[0] or "(deep)" in line:
+        # the model declines (a mark used as a value), or a display is cyclic / deeper than the
+        # rendering bound: there ast.unparse raises RecursionError, which Cli.v does not model
+        # (it models to_ast, not the printer)
         return "declined"
     if rsegs is None:
         return {"why": "printed text does not parse", "model": line[:200]}
@@ -524,7 +527,7 @@ def main(tier, seed):
     if built:
         chk.prove()
     rng = chk.rng
-    nstacks = 14 if tier == "quick" else 420
+    nstacks = 14 if tier == "quick" else 1200
     cases = make_cases(rng, nstacks)
     B = 40
     batches = [cases[i:i + B] for i in range(0, len(cases), B)]
@@ -541,6 +544,8 @@ def main(tier, seed):
         chk.stats[key] = chk.stats.get(key, 0) + 1
         chk.stats["stream:" + case["stream"]] = chk.stats.get("stream:" + case["stream"], 0) + 1
         obs = _obs(r)
+        if isinstance(obs[0], tuple):
+            chk.stats[case["mode"] + ":raised"] = chk.stats.get(case["mode"] + ":raised", 0) + 1
         if case["mode"] == "inject":
             kind = "in-range" if 0 <= case["k"] < n else ("too-high" if case["k"] >= n else "negative")
             chk.stats["target:" + kind] = chk.stats.get("target:" + kind, 0) + 1
@@ -550,8 +555,6 @@ def main(tier, seed):
             _st, _segs, ranges = real_decompile_line(obs, case.get("trace"))
             if ranges and sum(1 for x in ranges if x) >= 2:
                 chk.nontriv(json.dumps(case, sort_keys=True))
-            if isinstance(obs[0], tuple):
-                chk.stats["decompile:raised"] = chk.stats.get("decompile:raised", 0) + 1
         if r["oracle"]:
             bad.append({**case, "oracle": r["oracle"]})
         if not built:
@@ -568,7 +571,7 @@ def main(tier, seed):
                 d = None
         if d:
             mism.append({**case, "mismatch": d})
-    chk.stats["model-declined(mark used as a value / non-plain names)"] = declined
+    chk.stats["model-declined(mark used as a value / cyclic or very deep display)"] = declined
     chk.stats["outside-model(opcode without abstract form)"] = nomodel
     for c in cases[:400:67]:
         chk.sample({k: (v if k != "pickles" else [h[:60] for h in v]) for k, v in c.items()})
